@@ -1,7 +1,8 @@
 (* C14 — BodyLimit: no handler ever consumes more than the limit unnoticed.
    Only property statements here; proofs are in Mw/BodyLimitProofs.v. *)
 From Coq Require Import List ZArith.
-From Echo Require Import Mw.BodyLimit Mw.BodyLimitProofs.
+From Echo Require Import Base.GoLite Gen.Src_bodylimit Gen.Src_bodylimit_fn Mw.BodyLimit Mw.BodyLimitProofs Mw.BodyLimitSrc.
+Import ListNotations.
 Import ListNotations.
 Open Scope Z_scope.
 
@@ -48,3 +49,24 @@ Example C14_example :
   reads 5 0 [(3, ENone); (3, ENone); (0, EEOF)] = [(3, RNone); (3, R413); (0, R413)]
   /\ nonneg [(3, ENone); (3, ENone); (0, EEOF)].
 Proof. split; [reflexivity|]. repeat constructor; simpl; discriminate. Qed.
+
+From Coq Require Import String.
+
+(* ---- the tie to the source by proof: limitedReader.Read / Reset, translated statement by statement from
+   middleware/body_limit.go on every run (Gen/Src_bodylimit_fn.v, language Base/GoLite.v), compute the model's
+   [rd] / [reset] for every counter, limit and answer of the wrapped reader *)
+Theorem C14_source_read : forall (sym : string -> Z) cnt L n e rest,
+  let '(st', ret) := GoLite.run sym src_limited_read_results src_limited_read (read_state cnt L n e rest) in
+  GoLite.get (fields st') "r.read"%string = (cnt + n)%Z /\
+  GoLite.get (fields st') "r.limit"%string = L /\
+  ret = [n; if read_over (cnt + n) L then sym "echo.ErrStatusRequestEntityTooLarge"%string else e] /\
+  events st' = [("r.reader.Read"%string, [0%Z])].
+Proof. exact src_read_is_rd. Qed.
+Print Assumptions C14_source_read.
+
+Theorem C14_source_reset : forall (sym : string -> Z) cnt L rest,
+  let st := {| locals := [("reader"%string, 0%Z)]; fields := ("r.read"%string, cnt) :: ("r.limit"%string, L) :: rest; events := []; inputs := [] |} in
+  let '(st', _) := GoLite.run sym src_limited_reset_results src_limited_reset st in
+  GoLite.get (fields st') "r.read"%string = reset_count cnt /\ GoLite.get (fields st') "r.limit"%string = L.
+Proof. exact src_reset_is_reset. Qed.
+Print Assumptions C14_source_reset.
